@@ -177,6 +177,18 @@ func extPlans() []extPlan {
 	add("extreme-args", func(sc *scen) []opDesc { // the sum of the deposits overflows
 		return []opDesc{{Kind: "fund", C: 0, Deps: []depDesc{{K: 1, Amt: maxCurrency}, {K: 2, Amt: maxCurrency}}, Signer: "ok", Arg: "raw"}, fundOp(0, 1, "5")}
 	})
+	// the running sum wraps in the middle of the batch, at its end, and twice; the renter signs
+	// for the wrapped total
+	for _, amts := range [][]string{{maxCurrency, "1", "1"}, {"5", maxCurrency, "7", "9"}, {"1", "1", maxCurrency}, {maxCurrency, maxCurrency, "3"}, {maxCurrency, "1", maxCurrency, "1", "4"}} {
+		amts := amts
+		add("extreme-args", func(sc *scen) []opDesc {
+			o := opDesc{Kind: "fund", C: 0, Signer: "ok", Arg: "wrap"}
+			for i, a := range amts {
+				o.Deps = append(o.Deps, depDesc{K: 1 + i, Amt: a}) // distinct keys: no balance overflows
+			}
+			return []opDesc{fundOp(0, 1, "50"), o, fundOp(0, 2, "5"), {Kind: "balance", A: 1}}
+		})
+	}
 	add("extreme-args", func(sc *scen) []opDesc {
 		return []opDesc{{Kind: "replA", C: 0, Keys: []int{1}, Target: maxCurrency, Signer: "ok", Arg: "raw"},
 			{Kind: "replP", C: 0, Keys: []int{4, 5}, Target: maxCurrency, Signer: "ok", Arg: "raw"}, fundOp(0, 1, "5")}
@@ -250,6 +262,24 @@ func extPlans() []extPlan {
 			attachOp(1, 4, 5), attachOp(2, 5, 6), attachOp(3, 6, 4), w(1, 2), w(2, 2), w(3, 2),
 			{Kind: "replP", C: 0, Keys: []int{4, 5, 6}, Target: half, Signer: "ok"}, w(3, 2), w(2, 2), w(1, 2)}
 	})
+	// a validly signed detach that names a pool which is not attached changes nothing, whether the
+	// account has one link, two links, or none
+	for i := 0; i < 6; i++ {
+		i := i
+		add("topology", func(sc *scen) []opDesc {
+			wc := sc.cost(w(1, 2))
+			signer := []string{"pool", "acct"}[i%2]
+			ops := []opDesc{{Kind: "replP", C: 0, Keys: []int{4, 5, 6}, Target: mul(wc, 2), Signer: "ok"}}
+			switch i / 2 {
+			case 0:
+				ops = append(ops, attachOp(1, 4)) // exactly one link
+			case 1:
+				ops = append(ops, attachOp(1, 4, 6))
+			}
+			other := opDesc{Kind: "detach", Es: []entryDesc{{A: 1, P: 5, VU: 1, Signer: signer}}}
+			return append(ops, other, w(1, 2), other, attachOp(2, 5), opDesc{Kind: "detach", Es: []entryDesc{{A: 2, P: 4, VU: 1, Signer: "pool"}, {A: 1, P: 5, VU: 1, Signer: "pool"}}}, w(2, 2), w(1, 3))
+		})
+	}
 	_ = fmt.Sprint
 	return ps
 }
